@@ -107,6 +107,37 @@ pub fn judge(exp: &J, res: &J) -> Option<&'static str> {
     }
 }
 
+/// The same option set built with the builder calls in the opposite order (booleans first, keyword syntaxes last,
+/// one at a time through the accumulating method).
+fn parse_opts_reversed(j: &J) -> lexpr::parse::Options {
+    use lexpr::parse::{Brackets, KeywordSyntax, NilSymbol, Options, TSymbol};
+    use lexpr::print::{CharSyntax, StringSyntax};
+    let mut o = Options::new();
+    o = o.with_leading_digit_symbols(j["digits"].as_bool().unwrap());
+    o = o.with_racket_hash_percent_symbols(j["racket"].as_bool().unwrap());
+    o = o.with_char_syntax(if j["chr"] == "elisp" { CharSyntax::Elisp } else { CharSyntax::R6RS });
+    o = o.with_string_syntax(if j["str"] == "elisp" { StringSyntax::Elisp } else { StringSyntax::R6RS });
+    o = o.with_brackets(if j["br"] == "vec" { Brackets::Vector } else { Brackets::List });
+    o = o.with_t_symbol(if j["t"] == "true" { TSymbol::True } else { TSymbol::Default });
+    o = o.with_nil_symbol(match j["nil"].as_str().unwrap() { "null" => NilSymbol::EmptyList, "special" => NilSymbol::Special, _ => NilSymbol::Default });
+    // replace first (with nothing), then accumulate
+    o = o.with_keyword_syntaxes(Vec::<KeywordSyntax>::new());
+    let kw = j["kw"].as_array().unwrap();
+    if kw[2].as_bool().unwrap() { o = o.with_keyword_syntax(KeywordSyntax::ColonPostfix); }
+    if kw[1].as_bool().unwrap() { o = o.with_keyword_syntax(KeywordSyntax::ColonPrefix); }
+    if kw[0].as_bool().unwrap() { o = o.with_keyword_syntax(KeywordSyntax::Octothorpe); }
+    o
+}
+
+pub fn parse_res_reversed(text: &[u8], ro: &J) -> J {
+    let o = parse_opts_reversed(ro);
+    let t = text.to_vec();
+    guarded(move || match std::str::from_utf8(&t) {
+        Ok(s) => res_json(&lexpr::from_str_custom(s, o)),
+        Err(_) => res_json(&lexpr::from_slice_custom(&t, o)),
+    })
+}
+
 pub fn parse_res(text: &[u8], ro: &J) -> J {
     let o = parse_opts(ro);
     let t = text.to_vec();
@@ -149,6 +180,15 @@ pub fn run(cfg: &J) -> J {
         for (oi, ro) in all.iter().enumerate() {
             evals += 1;
             let res = parse_res(text, ro);
+            // the same option set assembled in the opposite builder order must behave the same (sampled)
+            if (oi + ii) % 16 == 0 {
+                evals += 1;
+                let rev = parse_res_reversed(text, ro);
+                if rev != res {
+                    bad.push(json!({"rule":"interference","why":"the result depends on the order in which the option set was built","text":bytes_j(text),"ro":ro,
+                                    "ro0":ro,"res":rev,"res0":res,"dims":dims}));
+                }
+            }
             let key = proj_key(ro, dims);
             match table.get(&key) {
                 Some(exp) => {
